@@ -12,3 +12,4 @@ import Desert.Props.C11
 #print axioms C11.spec_uv_length
 #print axioms C11.layers_agree_u32
 #print axioms C11.layers_agree_i32
+#print axioms C11.layers_agree_read
